@@ -11,6 +11,8 @@ Per (program, simulation) task it records into <workdir>/monitor.d/<prog>__<sim>
   np_draw_before_seed    the numpy global generator was advanced between the start of the task and the
                          first np.random.seed(...) of the task (or no seed call happened at all and the state moved)
   seed_calls             number of np.random.seed calls during the task
+  infra_arg_mutated      the pickled `infrastructure` argument of simulate() (the object shared by all programs of a
+                         simulation in sequential mode) differs before/after the task
 and once per worker process <workdir>/monitor.d/_setup_<pid>.json: containers changed between import and
 the first task (the set-up phase: infrastructure / emission generation).
 """
@@ -93,6 +95,17 @@ def _np_state_digest(np):
     return hashlib.sha1(repr((st[0], st[1].tobytes(), st[2], st[3], st[4])).encode()).hexdigest()
 
 
+def _infra_digest(infra):
+    """digest of the pickled `infrastructure` argument of simulate(): every program of a simulation gets the
+    SAME in-memory object in sequential mode and must leave it untouched (it works on a deep copy)"""
+    try:
+        import pickle
+
+        return hashlib.sha1(pickle.dumps(infra, protocol=4)).hexdigest()
+    except Exception:
+        return None
+
+
 def install(job):
     from harness import shim
     import numpy as np
@@ -128,6 +141,7 @@ def install(job):
             with open(os.path.join(STATE["dir"], f"_setup_{os.getpid()}.json"), "w") as fh:
                 json.dump({"pid": os.getpid(), "changed_in_setup": _diff(STATE["base"], s0)}, fh)
         before = snapshot(src)
+        infra0 = _infra_digest(args[9] if len(args) > 9 else kwargs.get("infrastructure"))
         std0 = hashlib.sha1(repr(_stdlib_random.getstate()).encode()).hexdigest()
         np0 = _np_state_digest(np)
         task.update(first_seed_state=None, seed_calls=0, active=True)
@@ -139,6 +153,7 @@ def install(job):
         finally:
             task["active"] = False
             after = snapshot(src)
+            infra1 = _infra_digest(args[9] if len(args) > 9 else kwargs.get("infrastructure"))
             std1 = hashlib.sha1(repr(_stdlib_random.getstate()).encode()).hexdigest()
             np1 = _np_state_digest(np)
             if task["seed_calls"] == 0:
@@ -148,7 +163,9 @@ def install(job):
             rec = {"prog": prog, "sim": sim, "pid": os.getpid(), "seq": seq, "t0": t0,
                    "dirty_at_entry": _diff(STATE["base"], before), "changed": _diff(before, after),
                    "stdlib_used": std0 != std1, "np_draw_before_seed": bool(pre),
-                   "seed_calls": task["seed_calls"]}
+                   "seed_calls": task["seed_calls"],
+                   "infra_arg_mutated": (infra0 is not None and infra1 is not None and infra0 != infra1),
+                   "infra_digest_ok": infra0 is not None and infra1 is not None}
             with open(os.path.join(STATE["dir"], f"{prog}__{sim}.json"), "w") as fh:
                 json.dump(rec, fh)
 
